@@ -239,10 +239,13 @@ Definition map_dict (pm : list (var * expr)) (cm : list (chan * option chan)) (d
 
 Inductive quantity := QIntegral | QInitial | QFinal.
 
-(* for-loop index used by initial_values / final_values, loop_pulse_template.py:230-245 *)
+(* for-loop index used by final_values, loop_pulse_template.py:239-250 (after the repair of finding for-final-floor):
+   n_last = (stop - start - sign(step)) // step;  final_idx = start + Max(n_last, 0) * step.
+   sympy.sign(x) is represented by the Piecewise it evaluates like on numbers. *)
+Definition esign (x : expr) : expr := EIfLe x e0 (EIfLe e0 x e0 (EC (-(1)))) e1.
 Definition loop_final_index (start stop step : expr) : expr :=
-  let n := EFloor (EDiv (ESub stop start) step) in          (* (stop - start) // step *)
-  EAdd start (EMul (EMax (ESub n e1) e0) step).
+  let n := EFloor (EDiv (ESub (ESub stop start) (esign step)) step) in          (* (stop - start - sign(step)) // step *)
+  EAdd start (EMul (EMax n e0) step).
 
 Fixpoint quant (q : quantity) (p : pt) : dict :=
   match p with
